@@ -134,7 +134,39 @@ func propC18(t *rapid.T) {
 	// a little history so that representations are not only the freshly built ones
 	for i := 0; i < rapid.IntRange(0, 4).Draw(t, "nops"); i++ {
 		s, e := range64(t, "r", m)
-		switch rapid.IntRange(0, 3).Draw(t, "op") {
+		switch rapid.IntRange(0, 4).Draw(t, "op") {
+		case 4:
+			// cut a chunk back to exactly 4095/4096/4097 values by one range removal
+			if m.IsEmpty() {
+				continue
+			}
+			v := value64(t, "land.chunk", m)
+			if !m.Contains(v) {
+				v = m.Min()
+			}
+			base := v &^ 0xFFFF
+			w := m.Window(base, base|0xFFFF)
+			target := uint64(rapid.SampledFrom([]int{4095, 4096, 4097}).Draw(t, "land.target"))
+			if w.Card() <= target {
+				// grow it first: every other value
+				for x := base; x < base+12000 && x <= base|0xFFFF; x += 2 {
+					b.Add(x)
+					m.Add(x)
+				}
+				w = m.Window(base, base|0xFFFF)
+			}
+			if w.Card() > target {
+				if rapid.Bool().Draw(t, "land.tail") {
+					x, _ := w.Select(target)
+					b.RemoveRange(x, base+65536)
+					m.RemoveRange(x, base|0xFFFF)
+				} else {
+					x, _ := w.Select(w.Card() - target)
+					b.RemoveRange(base, x)
+					m.RemoveRange(base, x-1)
+				}
+				inst.Count("C18", "history:range-removal-landing-on-threshold")
+			}
 		case 3:
 			// union with a partner that brings one chunk to 4095/4096/4097 values (array/bitmap threshold)
 			if m.IsEmpty() {
@@ -276,6 +308,19 @@ func propC18(t *rapid.T) {
 		}
 		if err := rb.Validate(); err != nil {
 			fail("%s into a receiver %s: round trip fails Validate: %v", e64[entry], recvName, err)
+		}
+		// the copying entry points must not keep the caller's bytes
+		if entry == 0 || entry == 2 {
+			scratch := append([]byte(nil), in...)
+			rb2 := roaring64.New()
+			if _, _, _, err := decode64Into(rb2, entry, scratch); err == nil {
+				for i := range scratch {
+					scratch[i] = 0x5A ^ byte(i)
+				}
+				if d := check64(rb2, m); d != "" {
+					fail("%s: the decoded bitmap changed when the caller's input bytes were overwritten afterwards: %s", e64[entry], d)
+				}
+			}
 		}
 		// keeps working
 		v := value64(t, "post", m)
